@@ -850,7 +850,8 @@ impl<'a> Ctx<'a> {
     fn lower_lambda(&mut self, lambda: ast::Lambda, allow_extern: bool) -> Expr {
         let old_labels = mem::take(&mut self.label_kinds);
 
-        assert!(self.inline_header_params.is_empty());
+        // a lambda can appear in the header of another lambda (e.g. as the type of a parameter)
+        let old_inline_header_params = mem::take(&mut self.inline_header_params);
 
         let mut params = Vec::new();
         let mut param_keys = FxHashMap::default();
@@ -1002,6 +1003,7 @@ impl<'a> Ctx<'a> {
         self.params = old_params;
         self.scopes = old_scopes;
         self.label_kinds = old_labels;
+        self.inline_header_params = old_inline_header_params;
 
         Expr::Lambda(self.bodies.lambdas.alloc(Lambda {
             params,
@@ -3220,7 +3222,8 @@ impl Bodies {
 
     #[track_caller]
     pub fn range_for_expr(&self, expr: Idx<Expr>) -> TextRange {
-        self.expr_ranges[expr]
+        // `Expr::Missing` (the result of a syntax error that has already been reported) has no range
+        self.expr_ranges.get(expr).copied().unwrap_or_default()
     }
 
     #[track_caller]
